@@ -76,7 +76,10 @@ def build(blocks, strand, parent=None, force_compound=False):
     st = strand_of(strand)
     if len(blocks) == 1 and not force_compound:
         return SingleInterval(blocks[0][0], blocks[0][1], st, parent=parent)
-    return CompoundInterval([b[0] for b in blocks], [b[1] for b in blocks], st, parent=parent)
+    starts, ends = [b[0] for b in blocks], [b[1] for b in blocks]
+    if (sum(starts) + len(starts)) % 3 == 0:     # a third of the inputs (chosen by content) hand the coordinates over as tuples
+        starts, ends = tuple(starts), tuple(ends)
+    return CompoundInterval(starts, ends, st, parent=parent)
 
 
 def layout_signature(blocks, strand):
